@@ -1075,7 +1075,18 @@ class VirtualMachine:
     return value
 
   def _get_value_from_annotations(self, state, op, name, local, orig_val):
-    annotations_dict = self.current_annotated_locals if local else None
+    if local or self.frame.f_globals is self.frame.f_locals:
+      # At module level the compiler also emits STORE_GLOBAL, for names that a
+      # function declares `global`.
+      annotations_dict = self.current_annotated_locals
+    else:
+      # A store through `global x` in a function is checked against the
+      # annotation that the module declares for x.
+      module_locals = self.annotated_locals.get("<module>")
+      if module_locals and name in module_locals and module_locals[name].typ:
+        annotations_dict = module_locals
+      else:
+        annotations_dict = None
     value = self._apply_annotation(
         state, op, name, orig_val, annotations_dict, check_types=True
     )
